@@ -283,6 +283,7 @@ fn run_trie_property(cli: &Cli) -> ! {
     if prop == "C04" {
         golden::check(&report);
         golden::insertion_orders(&report, cli.tier);
+        golden::long_stems(&report, cli.tier);
     }
     // C15 has two more layers: the lock map alone, and the contract-visible InstanceState
     if prop == "C15" {
